@@ -84,7 +84,8 @@ def make_h(tier):
             vocab = [n for n in vocab if n in ("work", "build", "dist", "venv", "node_modules", ".git", "tests", "test", "test_data", "examples", "x.test.y")]
         p1 = ctx.pick("parent", vocab)
         p2 = ctx.pick("grandparent", ("none", "build", "tests") if quick else ("none", "build", "tests", "dist", "test_data"))
-        spelling = ctx.pick("spelling", ("absolute", "dot-from-inside", "relative-from-parent", "absolute-other-cwd", "file-list-absolute"))
+        spelling = ctx.pick("spelling", ("absolute", "dot-from-inside", "relative-from-parent", "absolute-other-cwd", "file-list-absolute",
+                                         "dotdot-from-excluded-subdir", "dotdot-from-plain-subdir"))
         base = _baseline()
         tmp = tempfile.mkdtemp(prefix="c09-")
         cwd0 = os.getcwd()
@@ -102,6 +103,11 @@ def make_h(tier):
             elif spelling == "absolute-other-cwd":
                 os.chdir("/")
                 vs = Linter(project_root=d).lint(str(d))
+            elif spelling.startswith("dotdot"):
+                sub = d / ("build" if "excluded" in spelling else "docs")
+                sub.mkdir()
+                os.chdir(sub)
+                vs = Linter(project_root=d).lint("../app")
             else:
                 from src.orchestrator.core import Orchestrator
                 vs = Orchestrator(project_root=d).lint_files(sorted((d / "app").iterdir()))
